@@ -3,6 +3,9 @@ package main
 // C16 — device authorization grant. Three kinds of cases:
 //   usercode   : op.NewUserCode called directly for many (alphabet, amount, dash interval) configurations; the indices the
 //                real code drew are recovered from its output and handed to the model, which must reproduce the string
+//   usercodebytes : op.NewUserCode with crypto/rand.Reader replaced by a chosen byte stream (alphabets of 1 .. 300 runes, so one
+//                and two bytes per draw, streams with many rejected candidates and streams that run dry); the model
+//                (rand.Int's rejection sampling + the loop) must reproduce the user code AND the number of bytes consumed
 //   devicecode : op.NewDeviceCode called directly; the drawn bytes are recovered by decoding
 //   histories  : reset, then device_authorization / approve / deny / expire / poll lines against the REAL handlers of both
 //                routers on the reference storage, by several clients, with storage faults on the state lookup
@@ -10,10 +13,12 @@ package main
 import (
 	"bufio"
 	"context"
+	crand "crypto/rand"
 	"encoding/base64"
 	"encoding/hex"
 	"errors"
 	"fmt"
+	"io"
 	"net/http"
 	"net/url"
 	"strings"
@@ -39,6 +44,35 @@ var c16Alphabets = []c16Alphabet{
 	{"base20", op.CharSetBase20}, {"digits", op.CharSetDigits}, {"single", "A"}, {"two", "AB"}, {"with-dash", "ab-"},
 	{"umlaut", "äöüß"}, {"greek", "αβγδεζ"}, {"emoji", "😀😁😂"}, {"mixed-width", "a€😀ж"}, {"dup", "AAB"},
 	{"reserved-amp", "AB&"}, {"reserved-plus", "A+B"}, {"reserved-pct", "A%B"}, {"reserved-hash", "A#B"}, {"reserved-eq", "A=B"}, {"reserved-space", "A B"},
+}
+
+// c16Reader stands in for crypto/rand.Reader: a finite stream of chosen bytes, then io.EOF
+type c16Reader struct {
+	data []byte
+	pos  int
+}
+
+func (r *c16Reader) Read(p []byte) (int, error) {
+	if r.pos >= len(r.data) {
+		return 0, io.EOF
+	}
+	n := copy(p, r.data[r.pos:])
+	r.pos += n
+	return n, nil
+}
+
+// c16UserCodeFrom runs op.NewUserCode with crypto/rand.Reader replaced by rd (the stream is single-threaded)
+func c16UserCodeFrom(rd io.Reader, cs []rune, amount, dash int) (code string, err error, panicked bool) {
+	saved := crand.Reader
+	crand.Reader = rd
+	defer func() {
+		crand.Reader = saved
+		if recover() != nil {
+			panicked = true
+		}
+	}()
+	code, err = op.NewUserCode(cs, amount, dash)
+	return
 }
 
 func c16Reserved(cs string) bool { return strings.ContainsAny(cs, "&+%#") }
@@ -211,9 +245,11 @@ func c16Stream(r *hx.Rand, tier string, n int, w *bufio.Writer) map[string]int {
 	for i := 0; i < 6*n; i++ {
 		a, amount, dash := c16PickUserCode(r, 60)
 		cs := []rune(a.chars)
-		code, err := op.NewUserCode(cs, amount, dash)
+		code, err, panicked := c16UserCodeFrom(crand.Reader, cs, amount, dash)
 		l := hx.NewLine("C16").I("case", int64(caseNo)).S("op", "usercode").S("uc.cs", a.chars).I("uc.n", int64(amount)).I("uc.d", int64(dash))
-		if err != nil {
+		if panicked {
+			l.S("obs", "panic")
+		} else if err != nil {
 			l.S("obs", "err").S("o.err", err.Error())
 		} else {
 			l.S("obs", "ok").S("o.uc", code).L("idx", c16RecoverIdx(cs, dash, code))
@@ -229,6 +265,60 @@ func c16Stream(r *hx.Rand, tier string, n int, w *bufio.Writer) map[string]int {
 		default:
 			stats["usercode-dash-inside"]++
 		}
+		emit(l)
+	}
+	// ---- part 1b: NewUserCode on a chosen stream of "random" bytes
+	for i := 0; i < n; i++ {
+		size := hx.Pick(r, 1, 2, 3, 16, 17, 20, 20, 20, 255, 256, 257, 300)
+		cs := make([]rune, size)
+		for j := range cs {
+			cs[j] = rune(0x4E00 + j)
+		}
+		if size == 20 {
+			cs = []rune(op.CharSetBase20)
+		}
+		amount, dash := 1+r.Intn(12), r.Intn(6)
+		k := 1
+		if size > 256 {
+			k = 2
+		}
+		ln := k * amount * (1 + r.Intn(4))
+		if r.Chance(12) {
+			ln = r.Intn(k*amount + 1)
+		}
+		stream := make([]byte, ln)
+		for j := range stream {
+			switch r.Intn(6) {
+			case 0:
+				stream[j] = 0xFF
+			case 1:
+				stream[j] = byte(size - 2 + r.Intn(4)) // around the bound
+			case 2:
+				stream[j] = byte(r.Intn(2))
+			default:
+				stream[j] = byte(r.Intn(256))
+			}
+		}
+		rd := &c16Reader{data: stream}
+		code, err, panicked := c16UserCodeFrom(rd, cs, amount, dash)
+		l := hx.NewLine("C16").I("case", int64(caseNo)).S("op", "usercodebytes").S("uc.cs", string(cs)).I("uc.n", int64(amount)).I("uc.d", int64(dash)).
+			S("stream", hex.EncodeToString(stream))
+		switch {
+		case panicked:
+			l.S("obs", "panic")
+			stats["usercodebytes-panic"]++
+		case err != nil:
+			l.S("obs", "err").S("o.err", "entropy")
+			stats["usercodebytes-reader-dry"]++
+		default:
+			l.S("obs", "ok").S("o.uc", code).I("o.used", int64(rd.pos))
+			if rd.pos > k*amount {
+				stats["usercodebytes-with-rejections"]++
+			} else {
+				stats["usercodebytes-no-rejection"]++
+			}
+		}
+		stats[fmt.Sprintf("usercodebytes-alphabet-%d", size)]++
 		emit(l)
 	}
 	// ---- part 2: NewDeviceCode
